@@ -118,7 +118,7 @@ Proof.
             (n = fnode 14 [32; 33] [34] 4 \/ n = fnode 11 [31] [32] 2 \/ n = fnode 10 [1] [31] 1 \/ n = fnode 12 [31] [33] 3)%positive).
   { simpl. intuition. }
   split.
-  - intros n H. destruct (Hn n H) as [-> | [-> | [-> | ->]]]; split; reflexivity.
+  - intros n H. destruct (Hn n H) as [-> | [-> | [-> | ->]]]; split; try reflexivity; left; reflexivity.
   - reflexivity.
   - repeat constructor; simpl; intuition congruence.
   - repeat constructor; simpl; intuition congruence.
@@ -130,9 +130,9 @@ Proof.
     apply Pos.eqb_eq in E. subst. simpl. intuition congruence.
   - intros n p H. destruct (Hn n H) as [-> | [-> | [-> | ->]]]; reflexivity.
   - reflexivity.
-  - intros n s ins outs dec H He. destruct (Hn n H) as [-> | [-> | [-> | ->]]]; vm_compute in He;
+  - intros n s ins outs dec H _ He. destruct (Hn n H) as [-> | [-> | [-> | ->]]]; vm_compute in He;
       injection He as <- <-; split; reflexivity.
-  - intros n s ins p. unfold exec_basic. destruct (dget dag_ft (n_fn n)); [|discriminate].
+  - intros n s ins p _. unfold exec_basic. destruct (dget dag_ft (n_fn n)); [|discriminate].
     destruct (n_kind n); try discriminate.
     destruct (eval_fexp f (n_ndata n) ins); try discriminate. destruct (wrap_outputs n v); discriminate.
 Qed.
